@@ -9,98 +9,75 @@ LEVELS = {
     "C09": ("PARTIAL. Proved: for every sequence of the registration operations (creation, deletion with __del__, replace_vertex) a vertex "
             "lists a mesh edge / cell exactly when it exists and is attached to it; the model is tied to vertex.py / edge.py / cell.py by "
             "exact comparison of ownEdges / ownCells after random operation sequences. Every parser, generate_mesh, join_two_vertices and "
-            "Frame are exercised by the oracle with all five clauses evaluated on the implementation objects after every step", "4/C09",
+            "Frame are exercised by the oracle with all five clauses evaluated on the implementation objects after every step", "5/C09",
             "Coq invariant over all operation sequences + exact correspondence + construction-path oracle (partial)"),
     "C15": ("PARTIAL. cv2.findContours is a black box. Proved: vertices are interned by pixel position and there is one cell per contour "
             "with one vertex per contour pixel (model compared on the actual OpenCV output). One cell per region, border flags, internal "
             "interfaces, junction count, Frame construction and their equality under the 8 symmetries / padding / mirror_y are evaluated "
-            "by the oracle on square and honeycomb raster lattices (known topology) and the shipped images", "4/C15",
+            "by the oracle on square and honeycomb raster lattices (known topology) and the shipped images", "5/C15",
             "Coq theorems on the post-contour logic + symmetry oracle (partial)"),
     "C17": ("PARTIAL. Proved: the window is the (2L+1)^2 square of distinct pixels centred on the vertex, the integrated band is summed over "
             "distinct pixels, 'average' normalisation gives mean one, values keep the order given. Model tied to get_intensities by exact "
             "rational correspondence; linearity in the image, uniform images and the polyline-length divisor are evaluated by the oracle",
-            "4/C17", "Coq theorems on a Gallina model + exact correspondence + oracle (partial)"),
+            "5/C17", "Coq theorems on a Gallina model + exact correspondence + oracle (partial)"),
     "C18": ("theorems over R for every selection: zero where nothing is selected, jointly linear in pressures and tensions, minus p times "
             "the identity for pure pressure; the dictionary key is injective up to 10 x 10 and collides at 12 x 12 (refutation = known "
             "finding D10); PrimFloat instance of the model compared with the implementation per grid cell; eigen-decomposition by residual",
-            "4/C18", "Coq theorems on a polymorphic model + correspondence + oracle"),
+            "5/C18", "Coq theorems on a polymorphic model + correspondence + oracle"),
     "C14": ("token-level model of the dump parser; theorems: a face loop broken over any number of continuation lines is read back whole "
             "(for every list of faces and every wrapping), negative references contribute the edge's second vertex, vertices of no face "
             "and the edges at them are dropped, density rule; tied to the parser by exact correspondence on dumps written by an "
-            "independent serialiser; numeric fields compared by the oracle", "4/C14",
+            "independent serialiser; numeric fields compared by the oracle", "5/C14",
             "Coq theorems on a token-level Gallina model + independent serialiser round-trip"),
     "C19": ("PARTIAL. Proved: vertices are interned by rounded coordinates and ids never change, a ridge walked by the neighbouring region "
             "gets minus the same edge id, cells are stored under |key|. The lattice-elements model is tied to the code by exact "
             "correspondence (Qhull output handed to both). One cell per kept region with the region's corners as cycle, uniform "
-            "rotational sense and mesh consistency are evaluated against scipy's diagram by the oracle", "4/C19",
+            "rotational sense and mesh consistency are evaluated against scipy's diagram by the oracle", "5/C19",
             "Coq theorems (interning) + exact correspondence + Voronoi oracle (partial)"),
-    "C01": ("theorems over R: force balance makes (T/mean T, 0) an exact solution of the augmented system; an injective augmented matrix "
-            "has a single non-negative minimiser; together with C02 (rows) and C05 (certified minimiser) this is the property; the "
-            "composition is exercised end to end on Voronoi / Moebius tissues (all back-ends, fits, resampling) with D1 attributed", "4/C01",
+    "C01": ("theorems over R: force balance makes (T/mean T, 0) an exact solution of the augmented system; an injective augmented matrix has a single non-negative minimiser; together with C02 (rows) and C05 (certified minimiser) this is the property; end to end on Voronoi / Moebius tissues (all back-ends, fits, resampling, axis-aligned first segments, extreme length units): tangents within the calibrated circle-fit accuracy, reported tensions fit the assembled equations as well as the true ones, recovery error within the derived bound (2|E T| + eps_res)/sigma_min; D1 attributed", "5/C01",
             "Coq theorems (equilibrium solves / uniqueness) + analytic end-to-end oracle"),
     "C03": ("the same two theorems with b = M T (unit mobility) plus C13's placement / finite-difference theorems; end-to-end recovery "
             "from generated motions (forward / backward, unequal steps, independent renumbering incl. id 0) within the tolerance "
-            "implied by the three-decimal rounding", "4/C03", "Coq theorems + generated-motion oracle"),
-    "C06": ("PARTIAL. Proved over R: the stated tangent orientation commutes with rotations, positive scalings and reflections; a rotation "
-            "of a junction's two equations preserves the squared residual; the multiplier column (1,1) is not rotation invariant "
-            "(refutation = known finding D3); the adimensional ratio removes a common unit factor. End-to-end invariance of tensions, "
-            "pressures and coefficient pairs, and the unit changes of dynamic inference, are evaluated by the oracle with D1 / D3 attributed",
-            "4/C06", "Coq theorems (equivariance) + transformed-pair oracle (partial)"),
-    "C04": ("PARTIAL. Proved: every pressure equation has one +1 and one -1 at its interface's two cells, flipping the first cell's "
-            "orientation negates the row, zero re-insertion puts 0 exactly at the dropped cells' positions and keeps the other "
-            "entries in order, pressures reach the cells by dictionary position. Tested by the oracle only: side of the centre of "
-            "curvature, turning estimate (straight = 0, odd under reversal, within 3% on uniformly sampled arcs), zero-sum "
-            "least-squares optimality, linearity in the tensions, 0.9 correlation", "4/C04",
+            "implied by the three-decimal rounding", "5/C03", "Coq theorems + generated-motion oracle"),
+    "C06": ("PARTIAL. Proved over R: the stated tangent orientation commutes with rotations, positive scalings and reflections; a rotation of a junction's two equations preserves the squared residual; the multiplier column (1,1) is not rotation invariant (refutation = known finding D3); a change of units (all velocities x k) leaves the adimensional right-hand side unchanged and multiplies the reported system velocity by k. End-to-end invariance of tensions, pressures and coefficient pairs is evaluated by the oracle with tolerances derived from coordinate rounding, circle-fit accuracy and the least-squares perturbation bound, D1 / D3 attributed", "5/C06",
+            "Coq theorems (equivariance) + transformed-pair oracle (partial)"),
+    "C04": ("PARTIAL. Proved: every pressure equation has one +1 and one -1 at its interface's two cells, flipping the first cell's orientation negates the row; the turning estimate (np.gradient curvature, trapezoid rule) is zero on collinear points however spaced, invariant under translation and uniform scaling by any non-zero factor, and odd under reversal of the storage direction, so that the whole equation does not depend on the direction (over R); zero re-insertion puts 0 exactly at the dropped cells' positions and keeps the other entries in order; pressures reach the cells by dictionary position. Tested by the oracle only: side of the centre of curvature, 3% accuracy on uniformly sampled arcs, zero-sum least-squares optimality, linearity in the tensions, 0.9 correlation (known finding D24)", "5/C04",
             "Coq theorems on a Gallina model + differential correspondence + analytic oracle (partial)"),
-    "C07": ("PARTIAL. Proved: injective renumbering of vertices and arbitrary renumbering of cells renames the interface list and "
-            "changes nothing else (not even order); edge ids do not occur; pressure rows negate under a flip of the first cell. "
-            "Invariance under cyclic shifts / orientation flips / insertion order of vertices and edges is evaluated by the oracle "
-            "(interfaces, equations, tensions per cell pair, pressures per physical cell)", "4/C07",
+    "C07": ("PARTIAL. Proved: injective renumbering of vertices and arbitrary renumbering of cells renames the interface list and changes nothing else (not even order); starting a cell's cycle at another vertex rotates the cell's interface list; storing a cell in the opposite rotational sense gives the same interfaces traversed backwards; for whole tissues any per-cell combination of shifts and flips leaves the set of interfaces unchanged up to direction (both inclusions); pressure rows negate under a flip of the first cell. Invariance of the equations, tensions per cell pair and pressures per physical cell is evaluated by the oracle with tolerances derived from the measured order sensitivity of the circle fit", "5/C07",
             "Coq theorem (renaming) + relabelling oracle (partial)"),
     "C10": ("state-machine model of the ForSys stores with symbolic result tokens; theorem for every history: frame t reports the "
             "token of the last matrix (re)build preceding its last solve, independent of everything else; stores keyed by frame; "
-            "after every operation of random histories the implementation's stores are compared bitwise with fresh objects", "4/C10",
+            "after every operation of random histories the implementation's stores are compared bitwise with fresh objects", "5/C10",
             "Coq invariant over unbounded histories + differential comparison with fresh objects"),
-    "C12": ("theorems for every pool / radius schedule / initial guess: no two vertices share a target, pairings honoured, targets are "
-            "end points, every end point is mapped, a chosen target was free, forward-then-backward returns the start; find_best "
-            "(incl. the stale-radius second pass) tied to the code by exact correspondence; true-successor clause by oracle", "4/C12",
+    "C12": ("theorems for every pool / radius schedule / initial guess: no two vertices share a target, pairings honoured, targets are end points, every end point is mapped, a chosen target was free, forward-then-backward returns the start; small motions are followed: when every end point moves by less than d, d is at most half the spacing of the next frame's end points and at most the largest search radius, create_mapping maps every end point to its true successor for any numbering and pool order (over Q; find_best incl. the stale-radius second pass); tied to the code by exact correspondence; the floating-point implementation and the bounding-box clause are evaluated by the oracle", "5/C12",
             "Coq theorems on a Gallina model + exact differential correspondence"),
-    "C13": ("theorems: forward/backward finite-difference formula over the real time stamps, zero for untracked vertices, placement "
-            "of velocity components in the junction's own rows (all else zero), static mode zero; exact rational correspondence on "
-            "dyadic series; mean-speed normalisation by oracle", "4/C13",
+    "C13": ("theorems: forward/backward finite-difference formula over the real time stamps, zero for untracked vertices, placement of velocity components in the junction's own rows (all else zero), static mode zero; adimensional mode: the normaliser is the mean speed of ALL used junctions (n x mean = sum of speeds; a resting or untracked junction counts), one in dimensional mode; exact rational correspondence on dyadic series, PrimFloat correspondence of the normalisation step", "5/C13",
             "Coq theorems on a Gallina model + exact differential correspondence"),
     "C16": ("theorems: used interfaces = internal interfaces minus those flagged at both ends (order kept), exclusion iff both ends "
             "flagged, nothing flagged => nothing excluded, re-insertion puts -1 exactly at the excluded positions and the restricted "
             "solution in order elsewhere; flags recomputed from all pairs of directions and restricted-system solution compared by the oracle",
-            "4/C16", "Coq theorems on a Gallina model + differential correspondence + independent restricted solve"),
+            "5/C16", "Coq theorems on a Gallina model + differential correspondence + independent restricted solve"),
     "C02": ("theorems: one unknown per internal interface, row pairs exactly for the junctions whose equations received >=3 (<4 "
             "with ignore_four) coefficient pairs at rows 2k/2k+1, placement of versors by eid_from_vertex (under H_col), the "
             "stated tangent orientation over R, the code's sign-forcing rule proved equal to it under H_quad and refuted "
             "otherwise (known finding D1); matrix tied to fmatrix/edge code by exact rational correspondence; analytic-tangent oracle",
-            "4/C02", "Coq theorems on a Gallina model + differential correspondence + analytic oracle"),
+            "5/C02", "Coq theorems on a Gallina model + differential correspondence + analytic oracle"),
     "C05": ("kernel-checked sufficiency of slackened KKT conditions for non-negative least squares (all dimensions, all "
             "competitors) and soundness of an executable integer certificate checker; every captured solve is certified by "
             "evaluating that checker in Coq on the exact doubles; augmentation / stripping tied to the code by correspondence",
-            "4/C05", "Coq theorem (KKT sufficiency) + verified certificate checker evaluated per solve"),
-    "C11": ("theorems for every interface / ne / admissible index function: short interfaces unchanged, long ones get ne+1 points at "
-            "strictly increasing positions retaining both ends, idempotence, ends survive, surviving vertices keep id and position, "
-            "cycles become ordered subsequences; the binary64 index int(len/ne*i) is proved admissible on len<=1500, ne<=12 by "
-            "kernel evaluation of PrimFloat; generate_mesh/join_two_vertices model tied to the code by exact correspondence; "
-            "junction/adjacency/midpoint clauses by oracle (tested)", "4/C11",
+            "5/C05", "Coq theorem (KKT sufficiency) + verified certificate checker evaluated per solve"),
+    "C11": ("theorems for every interface / ne / admissible index function: short interfaces unchanged, long ones get ne+1 points at strictly increasing positions retaining both ends, idempotence, ends survive, surviving vertices keep id and position, cycles become ordered subsequences; the binary64 index int(len/ne*i) is proved admissible on len<=1500, ne<=12 by kernel evaluation of PrimFloat; join_two_vertices: the merged vertex gets an id not in use and sits at the midpoint (the id can repeat a deleted one: root of known finding D7); generate_mesh/join_two_vertices model tied to the code by exact correspondence; junction / adjacency clauses by oracle (tested)", "5/C11",
             "Coq theorems on a Gallina model (incl. bit-exact float index) + differential correspondence"),
-    "C08": ("theorems for every cycle / junction predicate / cell list: np.split loses nothing, every interface runs junction-to-"
-            "junction through non-junctions, a cell's interfaces tile a rotation of its cycle, de-duplication keeps exactly one "
-            "copy up to reversal, the three copies of the internal predicate agree and equal the stated characterisation; "
-            "walk determinism / exactly-two-cells / lookup-by-cells are evaluated by a graph-walk oracle (tested, not proved)",
-            "4/C08", "Coq theorems on a Gallina model + differential correspondence + graph-walk oracle"),
+    "C08": ("theorems for every cycle / junction predicate / cell list: np.split loses nothing, every interface runs junction-to-junction through non-junctions, a cell's interfaces tile a rotation of its cycle, every mesh edge of a cell that has a junction lies in an interface of the frame (in one of the two directions), de-duplication keeps exactly one copy up to reversal, the three copies of the internal predicate agree and equal the stated characterisation; 'exactly one', exactly-two-cells and lookup-by-cells need mesh-level hypotheses and are evaluated by a graph-walk oracle (tested)", "5/C08",
+            "Coq theorems on a Gallina model + differential correspondence + graph-walk oracle"),
     "C20": ("theorems over R for every polygon (reversal, shift, translation, scaling of area and perimeter, area = -shoelace, "
             "navigation, additivity under a cancellation hypothesis, neighbours); model tied to forsys/cell.py by exact "
-            "(rational) correspondence on dyadic polygons and tissues", "4/C20",
+            "(rational) correspondence on dyadic polygons and tissues", "5/C20",
             "Coq theorems on a Gallina model + differential correspondence"),
 }
 NOTE = ("Coq 8.16.1 kernel; standard-library axioms reported by Print Assumptions (real-number axioms, functional "
         "extensionality) listed per run in evidence.trusted_base; hand-written model tied to /repo by the correspondence "
-        "harness; black boxes (circle fit, NNLS, eig, Qhull, OpenCV, PIL, float()) are oracles, see DESIGN 2.4/2.9")
+        "harness; black boxes (circle fit, NNLS, eig, Qhull, OpenCV, PIL, float()) are oracles, see DESIGN 2.4 and 9")
 
 
 def main():
